@@ -7,6 +7,12 @@ import re
 
 HERE = os.path.dirname(os.path.dirname(os.path.abspath(__file__)))
 NEEDS = {
+    'C04-1': ('normalize() returns the un-floored norm while dividing by the floored one', 'an objective with max(||Q||_F, ||c||_2) < 1e-3'),
+    'C04-2': ('duality-gap conjunct dropped from the convergence test of done()', 'an iteration that breaks down early with tiny residuals but eta ~1e-5..1e-3'),
+    'C04-3': ('solve_without_inequality accepts on the LDLT status alone', 'no inequalities and a singular KKT system that LDLT does not flag'),
+    'C17-1': ('m_stop made atomic and set by the destructor without the queue lock', 'pool size 1 and the destructor landing between the worker\'s predicate test and its wait'),
+    'C17-2': ('unnamed scoped_lock temporary in the by-index map', 'several threads submitting to the same pool'),
+    'C17-3': ('section.block(raise) dropped from the chunked map', 'chunked overload, pool size above 1, a throwing operator'),
     'C08-1': ('datasource_t::resize storage-width thresholds use < while visit() uses <=', 'a single-label feature with exactly 256 classes plus another 8-bit-stored feature at the colliding row'),
     'C08-2': ('pairwise_product_t::process multiplies in the sources\' storage types before the cast', 'unsigned x negative, int32 products above 32 bits, or a float32 source'),
     'C08-3': ('generator_t::drop / shuffle set the flag byte with |= while the readers compare the whole byte', 'shuffle(f); drop(f) (or the reverse) on the same feature without a reset in between'),
